@@ -250,3 +250,87 @@ def block_axis(cfg, node):
                 if isinstance(e, ast.Compare):
                     ks.add(x.slice.value)
     return next(iter(ks)) if len(ks) == 1 else None
+
+
+def ly1_prealloc(m, run, fi, arrays=None, rule='LY1.prealloc-stride'):
+    """flat arrays created as [init for _ in range(Fu * Fv)] (Fu a u-extent, Fv a v-extent) and arrays handed in as canonical
+    parameters: every subscript is (v-part) + Fv * (u-part), v-part of direction v, u-part of direction u (constants allowed)"""
+    R = Resolver(fi)
+    sc = R.sc
+    alloc = {}
+    for n in walk_no_nested(fi.node):
+        if isinstance(n, ast.Assign) and len(n.targets) == 1 and isinstance(n.targets[0], ast.Name) and isinstance(n.value, ast.ListComp) \
+                and len(n.value.generators) == 1 and isinstance(n.value.generators[0].iter, ast.Call) and norm(n.value.generators[0].iter.func) == 'range':
+            ext = n.value.generators[0].iter.args[-1]
+            if isinstance(ext, ast.BinOp) and isinstance(ext.op, ast.Mult):
+                tl, tr = sc.int_tags(ext.left, n), sc.int_tags(ext.right, n)
+                if {0} in (tl, tr) and {1} in (tl, tr):
+                    fv = ext.left if tl == {1} else ext.right
+                    alloc[n.targets[0].id] = fv
+    for name, fv in (arrays or {}).items():
+        alloc[name] = fv
+    n_ = 0
+    for sub in [x for x in walk_no_nested(fi.node) if isinstance(x, ast.Subscript) and isinstance(x.value, ast.Name) and x.value.id in alloc]:
+        if isinstance(sub.slice, (ast.Slice,)):
+            continue
+        fv = alloc[sub.value.id]
+        fvp = to_poly(fv) if not isinstance(fv, Poly) else fv
+        atom_nodes = {}
+
+        def atom_of(e, _an=atom_nodes):
+            t = norm(e)
+            _an.setdefault(t, e)
+            return t
+        try:
+            p = to_poly(sub.slice, env=R.env(sub), atom_of=atom_of)
+        except NotPoly:
+            continue
+        if p.is_const():
+            continue
+        n_ += 1
+        fv_atoms = fvp.atoms()
+        problems = []
+        # split p = A + Fv * B
+        B = Poly()
+        A = Poly()
+        if len(fvp.t) == 1 and len(fv_atoms) == 1:
+            fa = next(iter(fv_atoms))
+            c = p.coeff_of(fa)
+            if c is None:
+                problems.append('index is not linear in the row length %s' % fa)
+                c = Poly()
+            B = c
+            A = p.without(fa)
+        else:
+            problems.append('row length %s is not a single size' % fvp)
+
+        def tags_of(poly):
+            t = set()
+            for a in poly.atoms():
+                node = atom_nodes.get(a)
+                if node is not None:
+                    t |= sc.int_tags(node, sub)
+            return t
+        ta, tb = tags_of(A), tags_of(B)
+        if not (ta <= {1}):
+            problems.append('the part addressed with stride 1 (`%s`) runs along %s, it must be the v position' % (A, fmt(ta)))
+        if not (tb <= {0}):
+            problems.append('the part multiplied by the row length %s (`%s`) runs along %s, it must be the u position' % (fvp, B, fmt(tb)))
+        # another size used as stride?
+        for a in p.atoms():
+            node = atom_nodes.get(a)
+            if node is not None and a not in fv_atoms:
+                c = p.coeff_of(a)
+                if c is not None and not c.is_const() and c != fvp and not (c.atoms() <= fv_atoms):
+                    pass
+        strides = set()
+        for mono, coef in p.t.items():
+            names = [a for a, _ in mono]
+            sizes = [a for a in names if a in fv_atoms]
+            others = [a for a in names if a not in fv_atoms]
+            if len(others) == 2:
+                # variable * some other size: a stride that is not the row length
+                problems.append('term `%s` uses a stride other than the row length %s' % ('*'.join(names), fvp))
+        run.ob(rule, '%s :: %s' % (fi.key, norm(sub)[:90]), not problems,
+               'index = v-part + %s * u-part' % fvp if not problems else '; '.join(problems) + ' (layout: v fastest, row length %s)' % fvp, site(fi, sub))
+    return n_
